@@ -152,6 +152,20 @@ def main(argv=None):
             dump = os.path.join(ROOT, ".work", "vc", prop)
             reports = pyrun.verify_all(reg, sel, timeout_ms=timeout, dump_dir=dump,
                                        engine_cls=getattr(cfg, "ENGINE", pyrun.Engine))
+            # functions this property depends on whose contracts live in another property's configuration (its contract modules and
+            # engine): verified here as well, under that configuration -- a change inside them is a failed obligation of THIS check too
+            for other, funcs in getattr(cfg, "BORROW", []):
+                ocfg = importlib.import_module(f"props.{other}")
+                oreg, ocontracts = pyrun.load_registry(ocfg.CONTRACT_MODULES)
+                owanted = set(funcs)
+                osel = [c for c in ocontracts if fullname(c) in owanted]
+                omissing = owanted - {fullname(c) for c in osel}
+                if omissing:
+                    broken.append(f"borrowed functions without contract in {other}: {sorted(omissing)}")
+                oreps = pyrun.verify_all(oreg, osel, timeout_ms=timeout, dump_dir=dump, engine_cls=getattr(ocfg, "ENGINE", pyrun.Engine))
+                for r_ in oreps:
+                    r_.borrowed_from = other
+                reports += oreps
         except Exception:
             broken.append("proof engine crashed:\n" + traceback.format_exc())
     n_obl = sum(len(r.real) for r in reports)
@@ -262,14 +276,17 @@ def main(argv=None):
                           status=r.status, detail=r.detail[:300], obligations=len(r.real),
                           discharged=len(r.real) - len(r.undischarged()), vacuity_probes=len(r.probes),
                           syntactic_frames=r.trivial_frames,
-                          undischarged=[o.name for o in r.undischarged()][:20]))
+                          undischarged=[o.name for o in r.undischarged()][:20],
+                          **({"contract_of": getattr(r, "borrowed_from")} if getattr(r, "borrowed_from", None) else {})))
     slow = sorted(((r.results[o.name].get("time", 0), o.name, r.results[o.name].get("backend")) for r in reports for o in r.real
                    if r.results.get(o.name, {}).get("time", 0) > 2.0 or r.results.get(o.name, {}).get("backend") != "z3"), reverse=True)[:12]
     samples = [o.name for r in reports for o in r.real][:6]
     cov = dict(
         obligations=n_obl, discharged=n_dis,
         checker_cmd=f"./check {prop} --tier {tier}",
-        trusted_base=list(getattr(cfg, "TRUSTED", [])),
+        trusted_base=list(getattr(cfg, "TRUSTED", [])) + [
+            f"trusted base of the contracts borrowed from {o}: " + "; ".join(getattr(importlib.import_module(f'props.{o}'), "TRUSTED", []))[:600]
+            for o, _ in getattr(cfg, "BORROW", [])],
         backends=backends, solver_time_s=round(solver_time, 2), functions=funcs,
         bounded=list(getattr(cfg, "BOUNDED", [])),
         explanation=getattr(cfg, "EXPLANATION", ""),
